@@ -355,7 +355,9 @@ def execute(prop, plan, tier, seed, expinfo, t_start, exp=None):
     threads = 4
 
     def _rv(vu):
-        return run_verus(vu['name'], vu['text'], workdir, threads=threads)
+        # resource limit 3x Verus's default: one theorem function (thm_segment_nearest3) needed more than the default under one of the z3
+        # seeds of the stability sweep; the limit only matters for obligations that are not discharged at once
+        return run_verus(vu['name'], vu['text'], workdir, threads=threads, rlimit=int(os.environ.get('VEKVERIF_RLIMIT', '30')))
     with ThreadPoolExecutor(max_workers=4) as ex:
         vres = list(ex.map(_rv, plan.vunits))
     for vu, r in zip(plan.vunits, vres):
